@@ -24,7 +24,7 @@ func init() {
 		Header:   "From ZenoV Require Import Lib.Harness Warc.Discard Warc.Retry Warc.WarcHarness.\nOpen Scope Z_scope.\n",
 		CaseType: "wcase",
 		Footer:   "\nDefinition DIFF := Eval vm_compute in wdiffs cases.\nPrint DIFF.\nDefinition MON := Eval vm_compute in wmons cases.\nPrint MON.\n",
-		Rule:     "one case = one process running the real archiver stage with a real WARC-writing client against an in-process origin: a configuration (fetch concurrency, WARC pool size, on-disk mode, local dedupe, rotation size, discard list, MaxRetry, sync/async, drain-only) and 8-16 resources (status sequence per attempt incl. dropped connections and truncated bodies, body kind and size, identity/gzip, content-length/chunked, Cloudflare header, twins with identical payload), sent as seeds or as assets of a seed; distinct by input text; non-trivial when at least one accepted response was stored, and the case has a discarded, a retried or a failed exchange",
+		Rule:     "one case = one process running the real archiver stage with a real WARC-writing client against an in-process origin: a configuration (fetch concurrency, direct or through a local SOCKS5 --proxy (the archiver's second WARC client), WARC pool size, on-disk mode, local dedupe, rotation size, discard list, MaxRetry, sync/async, drain-only) and 8-16 resources (status sequence per attempt incl. dropped connections and truncated bodies, body kind and size, identity/gzip, content-length/chunked, Cloudflare header, twins with identical payload), sent as seeds or as assets of a seed; distinct by input text; non-trivial when at least one accepted response was stored, and the case has a discarded, a retried or a failed exchange",
 		Gen:      genWarcleg,
 		Exec:     execWarcleg,
 		Shrink:   shrinkWarcleg,
@@ -56,6 +56,7 @@ func genWarcleg(r *Rng, i int, tier string) string {
 		MaxRetry: wlPick(r, []int{0, 1, 1, 2}),
 		Async:    r.Chance(12),
 		MaxHops:  1,
+		Proxy:    r.Chance(35),
 	}
 	if tier == "thorough" && r.Chance(15) {
 		sp.MaxRetry = 3
@@ -430,6 +431,10 @@ func execWarcleg(in string) Result {
 	if res.EmptyMembers > 0 {
 		tags["empty-gzip-member-from-idle-writer"] = true
 	}
+	tags[fmt.Sprintf("proxy:%v", sp.Proxy)] = true
+	if sp.Proxy && res.ProxyConnects == 0 {
+		note("warcleg: a --proxy case made no connection through the proxy")
+	}
 	tags[fmt.Sprintf("pool:%d", sp.Pool)] = true
 	tags[fmt.Sprintf("workers:%d", sp.Workers)] = true
 	tags[fmt.Sprintf("max-retry:%d", sp.MaxRetry)] = true
@@ -523,6 +528,9 @@ func shrinkWarcleg(in string) []string {
 	emit(s)
 	s = sp
 	s.OnDisk, s.Dedupe, s.WarcSize = false, false, 100
+	emit(s)
+	s = sp
+	s.Proxy = false
 	emit(s)
 	return out
 }
